@@ -45,6 +45,8 @@ def plan(tier, seed):
         parts.append(Part(H, "refused", {"cls": c}, 120, 60, "merge refused with uncommitted changes; nothing left behind"))
     for c in ("ih5", "mf"):
         parts.append(Part(H, "after_refused_commit", {"cls": c}, 120, 60, "a refused commit does not make a later merge fail"))
+    for c in ("ih5", "mf"):
+        parts.append(Part(H, "merge_small", {"cls": c}, 120, 60, "API-built records with 1..3 containers: merged record opens under the same class with the source's manifest"))
     parts.append(Part(H, "refused_stub", {}, 120, 60, "merge refused when the set contains a stub (fresh, reopened, or with a patch on top)"))
     return parts
 
